@@ -20,8 +20,9 @@ RULE = ('cases: tables of 0-8 rows (thorough 0-12) and 2-4 columns with scalar c
 EXPLANATION = ('theorems C11_* (coq/props/C11.v), for every table and key choice, about the executable model of _listby (sort decorated keys, run-length group) '
                'and of listby / unlist / groupby / ungroup / xyz / unpivot built on it: one group per distinct key holding exactly the rows with that key in '
                'original order; unlist(listby) = the stably sorted table at table level (key cells equal up to ==, literally equal rows when == keys are identical); '
-               'ungroup(groupby) = a Permutation of the rows; every pivot cell = agg of the z of exactly the rows with that (x, y), None elsewhere; '
-               'unpivot(pivot) recovers each (x, y label, z) row exactly once for unique (x, y) and z not None. The correspondence ties the model to /repo '
+               'ungroup(groupby) = a Permutation of the rows; every pivot cell = agg of the z of exactly the rows with that (x, y), None elsewhere (any x / z cells, '
+               'NaN x keys included; y NaN-free); unpivot(pivot) recovers each (x, y label, z) row exactly once for unique (x, y) and z not None, as a Permutation '
+               'when == keys are identical. The correspondence ties the model to /repo '
                'on every run, evaluated inside Coq')
 TRUSTED = ['modelled, not verified: dictable construction / concat / dict_concat plumbing (column order is observed up to sorting), CPython sorted() is stable',
            'the theorems are about the Gallina model (M_group.v); its agreement with _dictable.py is what the correspondence checks']
@@ -304,9 +305,12 @@ LEVEL_TEXT = ('machine-checked Coq theorems (C11_*, for every table, every key c
               'and literally map (row T) idx when == keys are identical (C11_unlist_listby); group sizes sum to len (C11_groupby_sizes_sum); '
               'ungroup(groupby(keys)) holds the rows of the table at a permutation of the indices, a Permutation of rows when == keys are identical '
               '(C11_ungroup_groupby); every pivot cell is agg of the z values of exactly the rows with that (x key, y value) in original order and None '
-              'where no row exists, every row has its cell (C11_pivot_cell); for unique (x, y) and z not None, unpivot(pivot) lists each (x, y label, z) row '
-              'of the table exactly once next to None rows (C11_unpivot_pivot). The model is compared with /repo inside Coq on thousands of tables on every run')
-LEVEL_NOTE = ('hypotheses of the pivot theorems: cells are NaN-free scalars, y labels do not collide with x column names, agg last/first for unpivot; '
+              'where no row exists, every row has its cell - for ANY x and z cells, NaN objects of different identity in x being one key (C11_pivot_cell); '
+              'for unique (x, y) and z not None, unpivot(pivot) lists each (x, y label, z) row of the table exactly once next to None rows '
+              '(C11_unpivot_pivot), and its rows with z not None are a Permutation of the (x, y label, z) rows when == keys are identical and labels '
+              'distinct (C11_unpivot_pivot_perm). The model is compared with /repo inside Coq on thousands of tables on every run')
+LEVEL_NOTE = ('the only cell hypothesis of the pivot theorems is that the y cells are NaN-free scalars (xyz looks y up in a dict by ==/hash; a NaN y raises '
+              'KeyError in the code) - x and z cells are arbitrary, NaN x keys included; unpivot: y labels do not collide with x column names, agg last/first; '
               'the theorems are about the Gallina model, tied to _dictable.py by the correspondence; sorting follows the repaired sort of C07; '
               'trusted: Coq kernel/vm_compute, dictable construction plumbing')
 TECHNIQUE = 'Coq proof (induction over the run-length grouping of a stably sorted index list) + differential correspondence in vm_compute + property oracle on the real outputs'
